@@ -363,6 +363,7 @@ int main(int argc, char ** argv) {
                     std::string o = outcome_in_child(reader, b, fail_at, mask);
                     outcomes[o]++;
                     ++g_checks;
+                    if (o == "hang" && outcomes[o] > 3) { summary({{"outcomes", outcomes}, {"stopped_early", "loader hangs"}}); return 0; }   // do not wait out every case
                     if (o != "threw") mismatch("io/fault-" + kind + "/" + o + "/type" + std::to_string(tid), {{"type", tid}, {"valueset", c["v"]}, {"fault", ft}, {"variant", desc}, {"outcome", o}, {"stream_exception_mask", mask}, {"specified", "threw"}});
                 }
             }
